@@ -15,12 +15,12 @@ var (
 	nbMod    = ReqOpts{MaxProv: 2, OnlyState: -1, Module: true}                                  // + contexts of another module (callbacks)
 	nbOne    = ReqOpts{MaxProv: 1, OnlyState: -1}                                                // new batch, one provider
 	exLife   = ReqOpts{MaxProv: 2, OnlyState: -1, NoSlash: true, OneOutput: true}                // expiry, lifecycle-focused (slash fraction 0)
-	exSlash  = ReqOpts{MaxProv: 1, OnlyState: -1, OneOutput: true}                               // expiry, one provider, slashing symbolic
+	exSlash  = ReqOpts{MaxProv: 1, OnlyState: -1, OneOutput: true, AnyDeposit: true}             // expiry, one provider, slashing symbolic
 	exMod    = ReqOpts{MaxProv: 2, OnlyState: -1, NoSlash: true, Module: true, ModuleOnly: true} // expiry with callbacks and all output shapes
 	exOne    = ReqOpts{MaxProv: 1, OnlyState: -1, NoSlash: true, OneOutput: true}                // expiry, smallest
 	rsWide   = ReqOpts{MaxProv: 2, OnlyState: -1, OneOutput: true}                               // respond, <=2 requests in the batch
 	rsMod    = ReqOpts{MaxProv: 2, OnlyState: 0, Module: true, ModuleOnly: true, NoSlash: true}  // respond with callbacks
-	rsOne    = ReqOpts{MaxProv: 1, OnlyState: -1, OneOutput: true}                               // respond, one request
+	rsOne    = ReqOpts{MaxProv: 1, OnlyState: -1, OneOutput: true, AnyDeposit: true}             // respond, one request
 	cmOne    = ReqOpts{MaxProv: 1, OnlyState: -1, Module: true}                                  // context messages
 	bmPlain  = BindOpts{NT: 0, NV: 0}
 	wdQuick  = WdOpts{LenP0: 20, LenP1: 20}
@@ -300,18 +300,53 @@ func C08_RespondModule() { focus = "C08"; sceneRespond(rsMod) }
 func C13_WithdrawLong() { focus = "C13"; sceneWithdraw(WdOpts{LenP0: 21, LenP1: 20}) }
 
 // ---- history skeleton from an empty state (thorough tier)
-func C01_Skeleton() { focus = "C01"; sceneSkeleton() }
-func C02_Skeleton() { focus = "C02"; sceneSkeleton() }
-func C03_Skeleton() { focus = "C03"; sceneSkeleton() }
-func C09_Skeleton() { focus = "C09"; sceneSkeleton() }
-func C10_Skeleton() { focus = "C10"; sceneSkeleton() }
-func C11_Skeleton() { focus = "C11"; sceneSkeleton() }
-func C12_Skeleton() { focus = "C12"; sceneSkeleton() }
-func C13_Skeleton() { focus = "C13"; sceneSkeleton() }
-func C16_Skeleton() { focus = "C16"; sceneSkeleton() }
-func C20_Skeleton() { focus = "C20"; sceneSkeleton() }
+func C01_Skeleton() { focus = "C01"; sceneSkeleton(1) }
+func C02_Skeleton() { focus = "C02"; sceneSkeleton(1) }
+func C03_Skeleton() { focus = "C03"; sceneSkeleton(1) }
+func C09_Skeleton() { focus = "C09"; sceneSkeleton(1) }
+func C10_Skeleton() { focus = "C10"; sceneSkeleton(1) }
+func C11_Skeleton() { focus = "C11"; sceneSkeleton(1) }
+func C12_Skeleton() { focus = "C12"; sceneSkeleton(1) }
+func C13_Skeleton() { focus = "C13"; sceneSkeleton(1) }
+func C16_Skeleton() { focus = "C16"; sceneSkeleton(1) }
+func C20_Skeleton() { focus = "C20"; sceneSkeleton(1) }
 
 // ---- binding life history from an empty state
 func C03_BindingHistory() { focus = "C03"; sceneBindingHistory() }
 func C14_BindingHistory() { focus = "C14"; sceneBindingHistory() }
 func C15_BindingHistory() { focus = "C15"; sceneBindingHistory() }
+
+// ---- thorough: deeper variants
+var (
+	exLife3 = ReqOpts{MaxProv: 3, OnlyState: -1, NoSlash: true, OneOutput: true}
+	rs3     = ReqOpts{MaxProv: 3, OnlyState: 0, OneOutput: true, NoSlash: true}
+)
+
+func C01T_Skeleton2() { focus = "C01"; sceneSkeleton(2) }
+func C02T_Skeleton2() { focus = "C02"; sceneSkeleton(2) }
+func C11T_Skeleton2() { focus = "C11"; sceneSkeleton(2) }
+func C12T_Skeleton2() { focus = "C12"; sceneSkeleton(2) }
+func C13T_Skeleton2() { focus = "C13"; sceneSkeleton(2) }
+func C16T_Skeleton2() { focus = "C16"; sceneSkeleton(2) }
+func C16T_Expiry3()   { focus = "C16"; sceneExpiry(exLife3) }
+func C12T_Expiry3() {
+	focus = "C12"
+	sceneExpiry(ReqOpts{MaxProv: 3, OnlyState: -1, NoSlash: true, Module: true, ModuleOnly: true, OneOutput: true})
+}
+func C09T_Expiry3()  { focus = "C09"; sceneExpiry(exLife3) }
+func C02T_Expiry3()  { focus = "C02"; sceneExpiry(exLife3) }
+func C08T_Respond3() { focus = "C08"; sceneRespond(rs3) }
+func C13T_Respond3() { focus = "C13"; sceneRespond(rs3) }
+func C05T_NewBatch() { focus = "C05"; sceneNewBatch(nb3) }
+func C18T_NewBatch() { focus = "C18"; sceneNewBatch(nb3) }
+
+// ---- two contexts processed in one block
+func C10_TwoNewBatches() { focus = "C10"; sceneTwoNewBatches() }
+func C11_TwoNewBatches() { focus = "C11"; sceneTwoNewBatches() }
+func C06_TwoNewBatches() { focus = "C06"; sceneTwoNewBatches() }
+func C01_TwoNewBatches() { focus = "C01"; sceneTwoNewBatches() }
+func C16_TwoNewBatches() { focus = "C16"; sceneTwoNewBatches() }
+func C20_TwoNewBatches() { focus = "C20"; sceneTwoNewBatches() }
+func C16_DoubleSlash()   { focus = "C16"; sceneDoubleSlash() }
+func C11_DoubleSlash()   { focus = "C11"; sceneDoubleSlash() }
+func C08_DoubleSlash()   { focus = "C08"; sceneDoubleSlash() }
